@@ -147,20 +147,20 @@ func (fr *Frame) sortSearch(args []Val, pos token.Pos) (Val, bool) {
 	}
 	r := FreshVar("search", SInt)
 	nn := Ite(BVCmp("bvslt", n, BVLit(0, 64)), BVLit(0, 64), n)
-	c.assume(Implies(fr.curReach, And(BVCmp("bvsle", BVLit(0, 64), r), BVCmp("bvsle", r, nn))))
+	c.assume(Implies(fr.abs(), And(BVCmp("bvsle", BVLit(0, 64), r), BVCmp("bvsle", r, nn))))
 	call := func(x *Term) *Term {
-		res, _, _ := c.runFunc(clo.Fn, []Val{{T: x}}, clo.Bindings, fr.cur.clone(), fr.curReach, fr, frameOpts{spec: true})
+		res, _, _ := c.runFunc(clo.Fn, []Val{{T: x}}, clo.Bindings, fr.cur.clone(), fr.abs(), fr, frameOpts{spec: true})
 		return res[0].T
 	}
-	c.assume(Implies(And(fr.curReach, BVCmp("bvslt", r, nn)), call(r)))
+	c.assume(Implies(And(fr.abs(), BVCmp("bvslt", r, nn)), call(r)))
 	rm1 := BV("bvsub", r, BVLit(1, 64))
-	c.assume(Implies(And(fr.curReach, BVCmp("bvsgt", r, BVLit(0, 64))), Not(call(rm1))))
+	c.assume(Implies(And(fr.abs(), BVCmp("bvsgt", r, BVLit(0, 64))), Not(call(rm1))))
 	// the predicate is called with indices in [0,n): its panics are obligations at a symbolic index
 	if !fr.spec {
 		k := FreshVar("search_probe", SInt)
 		saved := fr.curReach
 		fr.curReach = And(fr.curReach, BVCmp("bvsle", BVLit(0, 64), k), BVCmp("bvslt", k, nn))
-		c.runFunc(clo.Fn, []Val{{T: k}}, clo.Bindings, fr.cur.clone(), fr.curReach, fr, frameOpts{prefix: "sort.Search.pred"})
+		c.runFunc(clo.Fn, []Val{{T: k}}, clo.Bindings, fr.cur.clone(), fr.abs(), fr, frameOpts{prefix: "sort.Search.pred"})
 		fr.curReach = saved
 	}
 	return Val{T: r}, true
